@@ -23,7 +23,12 @@ RULE = ('1-4 routes (target pattern: literals over an alphabet with %, space, re
         'empty, dot, dot-dot, embedded slash) or a /-joined string; missing and extra keys; 0-3 extra elements; SCRIPT_NAME '
         'variants; query / anchor.  Every produced URL goes urlsplit -> unquote_to_bytes -> SCRIPT_NAME/PATH_INFO (latin-1) -> a '
         'real Router with the same routes.  non-trivial = the target route has a placeholder AND (the URL routed back to '
-        'a non-empty match dictionary OR KeyError was raised for a missing value); distinct by full case')
+        'a non-empty match dictionary OR KeyError was raised for a missing value); distinct by full case.  Two history '
+        'streams (12 % each): (hist) 2-4 generations in one process whose remainder sequences hold equal-but-differently-'
+        'printing int/bool/float/Decimal elements, from a cleared _segment_cache; (req) ONE request object whose '
+        'SCRIPT_NAME changes between generations (request.script_name = ..., environ[SCRIPT_NAME] = ..., path_info_pop()), '
+        'every generation judged (url = authority + path, way back under the mount point current THEN) against the '
+        'environ it was made under; non-trivial there = >= 2 successful generations under different SCRIPT_NAMEs')
 ASSUMPTIONS = [
     'patterns are in C01\'s modelled sublanguage ({name:regex} = one character class with a quantifier); no pregenerator, no '
     'static routes, no route predicates; route names are unique',
@@ -47,7 +52,9 @@ LEVEL_TEXT = ('Machine-checked for every pattern of C01\'s sublanguage and value
               '(literals kept, in order), and -- when every {name} value lies in its placeholder\'s language and the pattern is '
               'separable for these values -- matching that decoded path with the same compiled pattern returns exactly the '
               'stringified values, the remainder as the supplied segments (normalised by split_path_info otherwise); a '
-              'placeholder without a value gives KeyError; route_url = scheme://authority + route_path.')
+              'placeholder without a value gives KeyError; route_url = scheme://authority + route_path; generation is independent '
+              'of earlier generations in the process (_segment_cache) and, on one request object, of earlier generations and '
+              'earlier SCRIPT_NAMEs (each call = the function of the current environ).')
 LEVEL_NOTE = ('Trusted: Coq kernel; the hand-written models (shape-pinned, validated by correspondence); the parser of patterns '
               'is C01\'s (validated, no relational theorem); urllib/webob/re modelled; Python judge. Extra elements: only their '
               'place in the decoded path is specified here (their decoding is C17\'s).')
@@ -93,10 +100,39 @@ def _valid_hist(case):
     return True
 
 
+NO_OV = {'app_url': None, 'scheme': None, 'host': None, 'port': None, 'query': None, 'anchor': None}
+
+
+def _valid_req(case):
+    if not valid(dict(case, kind=None, elements=[], kw=[], ov=NO_OV)):
+        return False
+    if not (isinstance(case['path_info'], str) and P17._no_surrogate(case['path_info'])
+            and (case['path_info'] == '' or case['path_info'][0] == '/')):
+        return False
+    if not (isinstance(case['steps'], list) and 1 <= len(case['steps']) <= 10):
+        return False
+    for st in case['steps']:
+        if st[0] == 'set':
+            if not (len(st) == 3 and isinstance(st[1], str) and P17._no_surrogate(st[1]) and st[2] in ('attr', 'environ')
+                    and (st[1] == '' or st[1][0] == '/')):
+                return False
+        elif st[0] == 'pop':
+            if len(st) != 1:
+                return False
+        elif st[0] == 'gen':
+            if len(st) != 4 or not valid(dict(case, kind=None, elements=st[1], ov=st[2], kw=st[3])):
+                return False
+        else:
+            return False
+    return True
+
+
 def valid(case):
     try:
         if case.get('kind') == 'hist':
             return _valid_hist(case)
+        if case.get('kind') == 'req':
+            return _valid_req(case)
         rs = case['routes']
         if not (isinstance(rs, list) and 1 <= len(rs) <= 6 and len({r[0] for r in rs}) == len(rs)):
             return False
@@ -152,6 +188,14 @@ def _texts(case):
                 for x in ([v[1]] if v[0] == 'v' else v[1]):
                     out.append(x[1] if x[0] == 's' else bytes(x[1]).decode('utf-8', 'ignore') if x[0] == 'b' else str(x[-1]))
         return out
+    if case.get('kind') == 'req':
+        out = [case['path_info']]
+        for st in case['steps']:
+            if st[0] == 'set':
+                out.append(st[1])
+            elif st[0] == 'gen':
+                out += _texts(dict(case, kind=None, elements=st[1], kw=st[3]))
+        return out + [p for _n, p in case['routes']] + [case['env']['script_name']]
     out = [p for _n, p in case['routes']] + [case['env']['script_name']]
 
     def pv(v):
@@ -178,7 +222,35 @@ def _oracle(case):
     return [''.join(c for c in chars if _W.match(c)), ''.join(c for c in chars if _D.match(c))]
 
 
+def _w_step(st):
+    if st[0] == 'set':
+        return [0, st[1]]
+    if st[0] == 'pop':
+        return [1]
+    return [2, [P17._w_pval(x) for x in st[1]], P17._w_ov(st[2]), P17._w_kw(st[3])]
+
+
+def scripts_at(case):
+    """the SCRIPT_NAME (text) current at every generation step -- the harness's own bookkeeping of the steps"""
+    script, pinfo, out = case['env']['script_name'], case['path_info'], []
+    for st in case['steps']:
+        if st[0] == 'set':
+            script = st[1]
+        elif st[0] == 'pop':
+            if pinfo:
+                rest = pinfo.lstrip('/')
+                seg = rest.split('/', 1)[0]
+                script += pinfo[:len(pinfo) - len(rest)] + seg
+                pinfo = rest[len(seg):]
+        else:
+            out.append(script)
+    return out
+
+
 def to_wire(case):
+    if case.get('kind') == 'req':
+        return [2, _oracle(case), [[n, p] for n, p in case['routes']], case['target'], P17._w_env(case['env']),
+                case['path_info'], [_w_step(st) for st in case['steps']]]
     if case.get('kind') == 'hist':
         return [1, _oracle(case), list(case['route']), [[[k, _w_kwval6(v)] for k, v in kw] for kw in case['calls']]]
     return [_oracle(case), [[n, p] for n, p in case['routes']], case['target'], P17._w_env(case['env']),
@@ -224,9 +296,24 @@ def _from_wire_hist(case, raw):
     return {'model': model, 'spec': sp}
 
 
+def _from_wire_req(case, raw):
+    if not (isinstance(raw, list) and len(raw) == 2 and isinstance(raw[0], list) and len(raw[0]) == 2):
+        return {'model': ['MODEL-BAD', raw], 'spec': None}
+    (sts, outs), specs = raw
+    if any(x != 0 for x in sts):
+        _last['spec'] = None
+        return {'model': ['unsupported', sts], 'spec': None}
+    model = [[u, p, _canon_back(back)] for u, p, back in outs]
+    sp = ['req', [_spec_one(x) or [] for x in specs]]
+    _last['spec'] = sp
+    return {'model': model, 'spec': sp}
+
+
 def from_wire(case, raw):
     if case.get('kind') == 'hist':
         return _from_wire_hist(case, raw)
+    if case.get('kind') == 'req':
+        return _from_wire_req(case, raw)
     if not (isinstance(raw, list) and len(raw) == 2 and isinstance(raw[0], list) and len(raw[0]) == 4):
         return {'model': ['MODEL-BAD', raw], 'spec': None}
     (sts, u, p, back), spec = raw
@@ -379,11 +466,51 @@ def _run_hist(case):
     return out
 
 
+def _lat(t):
+    return t.encode('utf-8').decode('latin-1')
+
+
+def _run_req(case):
+    cfg, app = _app(case)
+    e = case['env']
+    environ = {'wsgi.url_scheme': e['scheme'], 'SERVER_NAME': e['server_name'], 'SERVER_PORT': e['server_port'],
+               'SCRIPT_NAME': _lat(e['script_name']), 'PATH_INFO': _lat(case['path_info']),
+               'REQUEST_METHOD': 'GET', 'QUERY_STRING': ''}
+    if e['http_host'] is not None:
+        environ['HTTP_HOST'] = e['http_host']
+    req = _impl['Request'](environ)          # ONE request object for the whole history
+    req.registry = cfg.registry
+    out = []
+    for st in case['steps']:
+        if st[0] == 'set':
+            if st[2] == 'attr':
+                req.script_name = st[1]
+            else:
+                req.environ['SCRIPT_NAME'] = _lat(st[1])
+        elif st[0] == 'pop':
+            req.path_info_pop()
+        else:
+            els = [P17._py_pval(x) for x in st[1]]
+
+            def args(st=st):
+                kw = {k: P17._py_kwval(v) for k, v in st[3]}
+                kw.update(P17._ov_kwargs(st[2], '_'))
+                return kw
+            u = P17._call(lambda: req.route_url(case['target'], *els, **args()))
+            p = P17._call(lambda: req.route_path(case['target'], *els, **args()))
+            # the way back starts at the mount point the request has NOW (webob's decoded script_name)
+            now = dict(case, env=dict(e, script_name=req.script_name))
+            out.append([u, p, _route_back(now, cfg, app, u[1]) if u[0] == 0 else []])
+    return out
+
+
 def run_impl(case):
     if not _impl:
         setup('quick')
     if case.get('kind') == 'hist':
         return _run_hist(case)
+    if case.get('kind') == 'req':
+        return _run_req(case)
     cfg, app = _app(case)
     e = case['env']
     environ = {'wsgi.url_scheme': e['scheme'], 'SERVER_NAME': e['server_name'], 'SERVER_PORT': e['server_port'],
@@ -465,6 +592,19 @@ def judge(case, obs, spec):
     """-> (True | False | None, reason)"""
     if case.get('kind') == 'hist':
         return _judge_hist(case, obs, spec)
+    if case.get('kind') == 'req':
+        if spec is None or spec[0] != 'req' or not isinstance(obs, list) or len(obs) != len(spec[1]):
+            return None, 'not specified'
+        said = None
+        for i, (o, sp, script) in enumerate(zip(obs, spec[1], scripts_at(case))):
+            if not sp:
+                continue
+            ok, why = judge(dict(case, kind=None, env=dict(case['env'], script_name=script)), o, sp)
+            if ok is False:
+                return False, 'generation %d (SCRIPT_NAME %r at that time): %s' % (i, script, why)
+            if ok:
+                said = True
+        return said, None
     if spec is None or not isinstance(obs, list) or len(obs) != 3:
         return None, 'not specified'
     u, p, back = obs
@@ -519,6 +659,8 @@ def classify(case, obs, spec):
 
 
 def _target_pattern(case):
+    if case.get('kind') == 'req':
+        return dict((n, p) for n, p in case['routes']).get(case['target'])
     if case.get('kind') == 'hist':
         return case['route'][1]
     for n, p in case['routes']:
@@ -539,6 +681,9 @@ def _hist_equal_keys(case):
 
 
 def nontrivial(case, obs):
+    if case.get('kind') == 'req':
+        sc = scripts_at(case)
+        return isinstance(obs, list) and len(obs) >= 2 and len(set(sc)) >= 2 and all(len(o) == 3 and o[0][0] == 0 for o in obs)
     if case.get('kind') == 'hist':
         return isinstance(obs, list) and len(obs) >= 2 and all(len(o) == 2 and o[0][0] == 0 and o[1] for o in obs) \
             and _hist_equal_keys(case)
@@ -555,6 +700,19 @@ def nontrivial(case, obs):
 
 def kinds(case, obs):
     k = []
+    if case.get('kind') == 'req':
+        sc = scripts_at(case)
+        k = ['req', 'req-generations-%d' % min(4, len(sc))]
+        if len(set(sc)) >= 2:
+            k.append('req-script-differs-between-generations')
+        for st in case['steps']:
+            k.append('req-step-' + (st[0] if st[0] != 'set' else 'set-' + st[2]))
+        if isinstance(obs, list) and all(len(o) == 3 for o in obs):
+            k.append('req-all-ok' if all(o[0][0] == 0 for o in obs) else 'req-some-error')
+        sp = _last.get('spec')
+        if sp and sp[0] == 'req':
+            k.append('req-spec-all' if all(sp[1]) else 'req-spec-partial')
+        return sorted(set(k))
     if case.get('kind') == 'hist':
         k = ['hist', 'hist-calls-%d' % len(case['calls'])]
         if _hist_equal_keys(case):
